@@ -37,7 +37,16 @@ func MarshalResource(r Resource, prepath string, fields []string, relData map[st
 
 		for _, field := range fields {
 			if field == attr.Name {
-				attrs[attr.Name] = r.Get(attr.Name)
+				v := r.Get(attr.Name)
+
+				// A non-nil pointer to a nil slice is an empty byte
+				// string, not null.
+				if p, ok := v.(*[]byte); ok && p != nil && *p == nil {
+					v = []byte{}
+				}
+
+				attrs[attr.Name] = v
+
 				break
 			}
 		}
